@@ -32,7 +32,14 @@ struct Case {
     files: Vec<Vec<GEvent>>,
     /// outcome of the successive telemetry POSTs (then: accepted)
     faults: Vec<Option<PostFault>>,
+    /// one more file whose events (plain ASCII, sizes computed from the measured fixed overhead) make a batch of
+    /// exactly 65536 + delta bytes: (delta, number of events)
+    #[serde(default)]
+    exact: Option<(i8, u8)>,
 }
+
+/// (bytes of an empty batch, fixed bytes of one event with an empty message), measured at start-up on this machine
+static CAL: Mutex<Option<(usize, usize)>> = Mutex::new(None);
 
 const HOSTILE: &[&str] = &["<", ">", "&", "'", "\"", "]]>", "<![CDATA[", "&amp;", "</Event>", "<Param Name=\"x\" Value=\"y\" />", "\u{1f980}", "\u{6f22}", "\u{e9}", "]]", "--", "<?xml", "\u{2028}", "&#x0;", "%s", "\\"];
 
@@ -56,7 +63,7 @@ fn gevent() -> impl Strategy<Value = GEvent> {
 
 fn strategy() -> impl Strategy<Value = Case> {
     let fault = prop_oneof![6 => Just(None), 2 => prop::sample::select(vec![500u16, 503, 400, 404]).prop_map(|c| Some(PostFault::Status(c))), 1 => Just(Some(PostFault::Reset)), 1 => (1u8..30).prop_map(|d| Some(PostFault::Late(d)))];
-    (prop::collection::vec(prop::collection::vec(gevent(), 0..14), 0..5), prop_oneof![3 => Just(vec![]), 2 => prop::collection::vec(fault, 1..9)]).prop_map(|(files, faults)| Case { files, faults })
+    (prop::collection::vec(prop::collection::vec(gevent(), 0..14), 0..5), prop_oneof![3 => Just(vec![]), 2 => prop::collection::vec(fault, 1..9)], prop::option::weighted(0.3, (-2i8..=2, 1u8..=5))).prop_map(|(files, faults, exact)| Case { files, faults, exact })
 }
 
 const RULE: &str = "generator: 0-4 event files x 0-13 events; message text = any Unicode scalar values except controls, drawn heavily from markup (< > & ' \" ]]> <![CDATA[ &amp; </Event> <Param .../>), non-BMP characters and long runs sized so that batch totals land around 64 KiB and single events land just under / over 64 KiB once wrapped; every event carries a unique marker in OperationId; the telemetry endpoint answers the successive POSTs by a generated pattern (accept / 5xx,4xx / connection reset / accept late). The real EventReader runs on a paused-clock runtime against a raw mock that also serves goal state, shared config and instance info. oracle: every POST body is < 65536 bytes and parses with xml-rs as TelemetryData/Provider/Event*; each event's character data parsed again as a fragment is a list of Param elements whose Context1 / Context3 / TaskName values decode to exactly the original strings; over all ACCEPTED POSTs no marker occurs twice and all POSTs containing a marker are byte-identical (re-sends of one batch); an event that cannot fit alone appears in no POST; every other event is posted and, unless the host refused all five attempts of its batch, accepted; the run ends and every consumed .json file is gone. non-trivial: a batch boundary was crossed, or an oversize event or a failure pattern is present, or a message contains markup; distinct by hash of the case.";
@@ -150,7 +157,21 @@ fn eval(mock: &Mock, host: &Arc<Mutex<HostState>>, workdir: &str, case: &Case, s
     std::fs::create_dir_all(&dir).unwrap();
     // markers and event files
     let mut originals: BTreeMap<String, (GEvent, usize)> = BTreeMap::new();
-    for (fi, f) in case.files.iter().enumerate() {
+    let mut files: Vec<Vec<GEvent>> = case.files.clone();
+    let mut exact_target: Option<(usize, usize)> = None; // (file index, batch bytes)
+    if let (Some((delta, n)), Some((h, f))) = (case.exact, *CAL.lock().unwrap()) {
+        let n = n as usize;
+        let target = (65536i64 + delta as i64) as usize;
+        let text = target - h - n * f;
+        let mut evs = Vec::new();
+        for i in 0..n {
+            let len = if i + 1 == n { text - (text / n) * (n - 1) } else { text / n };
+            evs.push(GEvent { message: "m".repeat(len), task: "start".into(), level: "INFO".into() });
+        }
+        exact_target = Some((files.len(), target));
+        files.push(evs);
+    }
+    for (fi, f) in files.iter().enumerate() {
         let mut arr = Vec::new();
         for (ei, e) in f.iter().enumerate() {
             let marker = format!("marker-f{}-e{}", fi, ei);
@@ -175,7 +196,7 @@ fn eval(mock: &Mock, host: &Arc<Mutex<HostState>>, workdir: &str, case: &Case, s
     // watchdog/terminator on a std thread with the wall clock
     let shared_cell: Arc<Mutex<Option<tokio_util_token::Token>>> = Arc::new(Mutex::new(None));
     let cell2 = shared_cell.clone();
-    let expected_files = case.files.len();
+    let expected_files = files.len();
     let watcher = std::thread::spawn(move || -> Result<(), String> {
         let t0 = Instant::now();
         let mut stable_since: Option<(Instant, usize)> = None;
@@ -290,6 +311,15 @@ fn eval(mock: &Mock, host: &Arc<Mutex<HostState>>, workdir: &str, case: &Case, s
         }
         let _ = first_time;
     }
+    if let Some((fi, target)) = exact_target {
+        let prefix = format!("marker-f{}-", fi);
+        let sizes: Vec<usize> = posts.iter().filter(|(b, _)| String::from_utf8_lossy(b).contains(&prefix)).map(|(b, _)| b.len()).collect();
+        stats.class(&format!("exact-batch:65536{:+}", target as i64 - 65536));
+        if target < 65536 && !any_fault && sizes != vec![target] {
+            // the size computation (not the agent) is off: say so instead of judging
+            stats.class("exact-batch:size-computation-missed(not judged)");
+        }
+    }
     // every event that fits alone was posted; oversize ones never
     let mut crossed = false;
     let mut oversize = false;
@@ -330,10 +360,10 @@ fn eval(mock: &Mock, host: &Arc<Mutex<HostState>>, workdir: &str, case: &Case, s
             return Outcome::fail("telemetry:batch-retried-more-than-five-times", format!("{} attempts", n));
         }
     }
-    if crossed || oversize || any_fault || any_markup {
+    if crossed || oversize || any_fault || any_markup || exact_target.is_some() {
         stats.nontrivial_hash(h64(case));
     }
-    stats.sample(|| serde_json::json!({"files": case.files.iter().map(|f| f.iter().map(|e| serde_json::json!({"message_bytes": e.message.len(), "message_start": e.message.chars().take(40).collect::<String>(), "task": e.task})).collect::<Vec<_>>()).collect::<Vec<_>>(), "faults": case.faults, "posts": posts.iter().map(|(b, a)| (b.len(), *a)).collect::<Vec<_>>()}));
+    stats.sample(|| serde_json::json!({"exact_batch_bytes": exact_target.map(|t| t.1), "files": case.files.iter().map(|f| f.iter().map(|e| serde_json::json!({"message_bytes": e.message.len(), "message_start": e.message.chars().take(40).collect::<String>(), "task": e.task})).collect::<Vec<_>>()).collect::<Vec<_>>(), "faults": case.faults, "posts": posts.iter().map(|(b, a)| (b.len(), *a)).collect::<Vec<_>>()}));
     Outcome::Pass
 }
 
@@ -397,6 +427,23 @@ fn main() {
     }
     let workdir = format!("{}.work", params.out);
     let _ = std::fs::create_dir_all(&workdir);
+    // measure the fixed sizes: one and two events with empty messages
+    {
+        let ev = || GEvent { message: String::new(), task: "start".into(), level: "INFO".into() };
+        let mut tmp = Stats::new();
+        let mut size_of = |k: usize| -> Option<usize> {
+            let c = Case { files: vec![(0..k).map(|_| ev()).collect()], faults: vec![], exact: None };
+            let _ = eval(&mock, &host, &workdir, &c, &mut tmp);
+            let posts = host.lock().unwrap().posts.clone();
+            if posts.len() == 1 { Some(posts[0].0.len()) } else { None }
+        };
+        if let (Some(l1), Some(l2)) = (size_of(1), size_of(2)) {
+            if l2 > l1 && 2 * l1 > l2 {
+                *CAL.lock().unwrap() = Some((2 * l1 - l2, l2 - l1));
+            }
+        }
+        stats.class(&format!("start-up:fixed-sizes-measured={:?}", *CAL.lock().unwrap()));
+    }
     let n = params.share(if th { 30_000 } else { 640 });
     Drive { params: &params, stats: &mut stats, known: &known }.run("c18.telemetry", 18, strategy(), n, |c, s| eval(&mock, &host, &workdir, c, s));
     for p in gpa_verif::runner::take_panics() {
